@@ -225,6 +225,10 @@ jobs:
       matrix:
         os: ${{ fromJSON('["ubuntu-latest"]') }}
         v: [1, '${{ github.run_number }}']
+        mix:
+          - ['${{ fromJSON(vars.X) }}', tail1, tail2]
+          - [1, a, {k: w}, x, y]
+          - [{k: 1}, s, [t, u]]
         include:
           - ${{ fromJSON('{"os":"ubuntu-latest"}') }}
           - os: ubuntu-latest
